@@ -375,9 +375,22 @@ fn derive_call_shape(def: &CallDef, symbol_table: &mut BTreeMap<Rc<str>, Shape>)
             for (arg_name, arg_expr) in fdef.arg_order.iter().zip(def.arglist.iter()) {
                 let actual_shape = arg_expr.derive_shape(symbol_table);
                 if let Some(declared_shape) = fdef.args.get(arg_name) {
-                    if let Shape::TypeErr(pos, msg) =
-                        declared_shape.narrow(&actual_shape, symbol_table)
-                    {
+                    // The callee's parameters are not bindings of the calling
+                    // scope: narrowing an unconstrained parameter must not
+                    // touch a same-named binding of the caller.
+                    let shadowed: Vec<(Rc<str>, Shape)> = fdef
+                        .arg_order
+                        .iter()
+                        .filter_map(|n| symbol_table.remove(n).map(|s| (n.clone(), s)))
+                        .collect();
+                    let narrowed = declared_shape.narrow(&actual_shape, symbol_table);
+                    for name in fdef.arg_order.iter() {
+                        symbol_table.remove(name);
+                    }
+                    for (name, shape) in shadowed {
+                        symbol_table.insert(name, shape);
+                    }
+                    if let Shape::TypeErr(pos, msg) = narrowed {
                         return Shape::TypeErr(pos, msg);
                     }
                 }
